@@ -6,4 +6,4 @@ From Snap.Fault Require Import FaultModel.
 Extraction Language OCaml.
 Set Extraction Optimize.
 Extraction "../ocaml/C08/c08_ext.ml" ArrayDefs.slot_at SyncModel.sync_loop SyncModel.save_normalise SyncModel.clear_past
-  FaultModel.sync_loop_w FaultModel.recorded_healthy FaultModel.scrub_stripe FaultModel.sync_trace.
+  FaultModel.sync_loop_w FaultModel.recorded_healthy FaultModel.scrub_stripe FaultModel.sync_trace FaultModel.classify_pwrite FaultModel.hash_phase FaultModel.hash_failing.
